@@ -28,7 +28,7 @@ def main():
     head = sh(["git", "-C", "/repo", "log", "--format=%h", "-1"])[1].strip()
     ran = []
     try:
-        rc, out = sh(["git", "-C", "/repo", "worktree", "add", "-q", "--detach", wt, "HEAD"])
+        rc, out = sh(["git", "-C", "/repo", "worktree", "add", "-q", "--detach", wt, os.environ.get("SEED_BASE") or "HEAD"])
         assert rc == 0, out
         rc, out = sh(["git", "apply", os.path.join(d, "patch.diff")], cwd=wt)
         if rc != 0:
